@@ -56,7 +56,10 @@ type Op struct {
 }
 
 type Move struct {
-	Kind string `json:"kind"` // leader brokeradd brokerremove topiccreate coord txn ctrlr
+	Kind string `json:"kind"`           // leader brokeradd brokerremove topiccreate coord txn ctrlr readdress renumber
+	Host string `json:"host,omitempty"` // readdress: new host name ("" = unchanged)
+	Port int    `json:"port,omitempty"` // readdress: new port (0 = unchanged)
+	Rack string `json:"rack,omitempty"` // readdress: new rack
 	T    string `json:"t,omitempty"`
 	P    int    `json:"p,omitempty"`
 	To   int    `json:"to,omitempty"`
